@@ -174,9 +174,12 @@ pub fn monitor(o: &Obs) -> Result<(), String> {
     let mut delivered: BTreeMap<usize, Vec<Frame>> = BTreeMap::new();
     let mut failed: BTreeMap<usize, bool> = BTreeMap::new();
     let mut rejected_seen: BTreeMap<usize, Vec<String>> = BTreeMap::new();
-    for e in &o.events {
+    let mut taken_at: Vec<usize> = vec![];                // event index at which each of them was taken
+    let mut refused: Vec<Frame> = vec![];                 // requests a replier's sink refused (start_send error)
+    for (idx, e) in o.events.iter().enumerate() {
         match e {
-            Ev::StreamItem(i, f) if *i < V => taken.push((*i, f.clone())),
+            Ev::StreamItem(i, f) if *i < V => { taken.push((*i, f.clone())); taken_at.push(idx); }
+            Ev::SinkSend(i, f, false) if *i >= V => { refused.push(f.clone()); failed.insert(*i, true); rejected_seen.entry(*i - V).or_default().push(format!("s{}", frame_tok(f))); }
             Ev::StreamItem(_, f) => replies.push(f.clone()),
             Ev::SinkSend(i, f, ok) if *i >= V => { if *ok { handed.push((*i - V, f.clone())); } else { failed.insert(*i, true); } rejected_seen.entry(*i - V).or_default().push(format!("s{}", frame_tok(f))); }
             Ev::SinkSend(i, f, ok) => { if *ok { delivered.entry(*i).or_default().push(f.clone()); } else { failed.insert(*i, true); } }
@@ -196,15 +199,29 @@ pub fn monitor(o: &Obs) -> Result<(), String> {
         let cid = p.headers.as_ref().and_then(|h| h.get("cid")).cloned();
         let cid: usize = match cid.and_then(|c| c.parse().ok()) { Some(c) => c, None => return Err(format!("C02: request handed to replier v{n} carries no usable origin tag: {}", frame_tok(f))) };
         // find the next untaken request of that requestor
-        let reqs: Vec<&Frame> = taken.iter().filter(|(i, fr)| *i == cid && matches!(fr, Frame::Message(_))).map(|(_, f)| f).collect();
+        let reqs: Vec<(&Frame, usize)> = taken.iter().zip(taken_at.iter()).filter(|((i, fr), _)| *i == cid && matches!(fr, Frame::Message(_))).map(|((_, f), at)| (f, *at)).collect();
         let cur = cursor.entry(cid).or_insert(0);
         let mut found = false;
+        let mut skipped: Vec<(&Frame, usize)> = vec![];
         while *cur < reqs.len() {
-            let r = match reqs[*cur] { Frame::Message(r) => r, _ => unreachable!() };
+            let r = match reqs[*cur].0 { Frame::Message(r) => r, _ => unreachable!() };
             *cur += 1;
             let mut want = r.headers.clone().unwrap_or_default();
             want.insert("cid".into(), cid.to_string());
             if r.message == p.message && Some(&want) == p.headers.as_ref() { found = true; break; }
+            skipped.push(reqs[*cur - 1]);
+        }
+        // exactly once while a replier is bound and stays bound: a request of the same requestor that was passed over
+        // must have been taken before this replier registered (nobody was bound: the slot is overwritten), or have
+        // been refused by a replier's sink (it outgrew the frame limit when tagged)
+        if found {
+            for (sf, at) in skipped {
+                let enq = o.server_enq_at.get(*n).copied().unwrap_or(0);
+                let was_refused = refused.iter().any(|rf| match (rf, sf) { (Frame::Message(a), Frame::Message(b)) => a.message == b.message, _ => false });
+                if at >= enq && !was_refused {
+                    return Err(format!("C02: request {} of requestor {cid} was taken while replier v{n} was bound, yet a later request of the same requestor was handed to v{n} and this one never was (dropped or overwritten while the replier was busy)", frame_tok(sf)));
+                }
+            }
         }
         if !found { return Err(format!("C02: replier v{n} was handed {} which is not (the next) request of requestor {cid} with the origin tag overwritten (duplicate, reordered, forged or altered)", frame_tok(f))); }
     }
@@ -389,6 +406,9 @@ pub fn run(cfg: &Cfg) {
             "rr +c_/i:m1,p,p,p +sf=E/p,p,p,p,p,p poll poll +s_/p,p,p poll poll +c_/i:m2,p poll poll",
             "rr +c_/i:m1,p,p,p +sr=RE/p,i:m7[cid=0],p,p,p,p poll poll +c_/i:m2,p poll +s_/p,p,p poll poll poll", "rr +c_/i:m1[cid=9],p +s_/p poll poll poll",
             "rr +c_/p +s_/i:m1,i:m2[cid=zz],i:m3[cid=7],i:m4[cid=0],p poll poll poll",
+            // a replier whose sink is busy (Pending once / twice / while silent) while several requests are ready
+            "rr +sr=PR/p,p,p,p,p +c_/i:m1,i:m2,i:m3,p,p,p poll poll poll poll", "rr +sr=PPR/p,p,p,p,p +c_/i:m1,i:m2,p,p,p poll poll poll poll poll",
+            "rr +sr=PRPR/p,p,p,p,p +c_/i:m1,i:m2,p,p +c_/i:m3,i:m4,p,p poll poll poll poll poll", "rr +sf=PR/p,p,p,p +c_/i:m1,i:m2,i:m3,p,p poll poll poll poll",
             "rr +s_/p +c_/p close poll poll poll", "rr +c_/i:m1,p close poll poll", "rr close poll", "rr +s~_/p +c_/p poll +c_/i:m5,p poll poll poll",
         ] { cases.push(c.to_string()); }
         // bursts of registrations drained in one poll (more than any per-poll allowance a router might have), idle
